@@ -343,7 +343,7 @@ def run(ctx):
         rev = ctx.spec_expr('reversed(range(16))')
         fors = [x for x in T.walk(e) if x[0] == 'for']
         ctx.check('DES.enc rounds', len(fors) == 1 and fors[0][2] == rng, 'encryption does not run rounds 0..15 in order', ctx.where(DES, 'DES.enc'))
-        e2 = T.substitute(e, {rng: rev})
+        e2 = T.substitute(e, {rng: rev, ('it', 1, 'num'): ('it', 1)})
         # the two methods may name their block parameter differently: compare bodies under dec's signature
         e2 = ('fn', d[1], e2[2])
         ctx.same_term('DES.dec mirrors enc', d, e2, ctx.where(DES, 'DES.dec'), what='DES.dec must be DES.enc with the round order reversed:')
